@@ -79,6 +79,83 @@ ELEMENT_CLASSES = ('EtreeElementNode', 'SchemaElementNode', 'ElementNode')
 
 
 OFFSET_MISMATCH: list = []
+PROVENANCE: list = []
+
+
+def map_provenance(f: FuncInfo, cfg: CFG, cons: Node, incs: list) -> list:
+    """
+    The namespace map counted in the gap must be the map of the element just constructed:
+    either the tree-level map (a name defined once, outside every loop) or `<elem>.nsmap` of
+    the constructor's first argument — directly, or through locals that are (re)defined from
+    it on EVERY path between the construction and the increment.
+    Returns a list of (node, message) problems.
+    """
+    problems = []
+    call = cons.ast.value                                   # type: ignore[union-attr]
+    elem = stmt_text(call.args[0]) if call.args else ''
+    loops = [n for n in ast.walk(f.node) if isinstance(n, (ast.For, ast.While))]
+
+    def in_loop(node: ast.AST) -> bool:
+        return any(node is x for lp in loops for x in ast.walk(lp))
+    defs: dict[str, list[ast.AST]] = {}
+    for n in ast.walk(f.node):
+        if isinstance(n, (ast.Assign, ast.AnnAssign)):
+            tg = n.targets[0] if isinstance(n, ast.Assign) else n.target
+            if isinstance(tg, ast.Name) and n.value is not None:
+                defs.setdefault(tg.id, []).append(n)
+
+    def tree_level(name: str, depth: int = 0) -> bool:
+        if name in f.params():
+            return not any(in_loop(d) for d in defs.get(name, []))
+        ds = defs.get(name, [])
+        if not ds or any(in_loop(d) for d in ds) or depth > 3:
+            return False
+        for d in ds:
+            for x in ast.walk(d.value):         # type: ignore[attr-defined]
+                if isinstance(x, ast.Name) and x.id not in ('len', 'int', 'hasattr') \
+                        and x.id != name and not tree_level(x.id, depth + 1):
+                    return False
+                if isinstance(x, ast.Attribute) and x.attr == 'nsmap':
+                    return False
+        return True
+
+    def fresh_from_elem(name: str, inc: Node, depth: int = 0) -> bool:
+        """every path cons -> inc passes a definition of `name` derived from <elem>.nsmap."""
+        def is_def(nd: Node) -> bool:
+            a = nd.ast
+            if nd.kind == 'stmt' and isinstance(a, (ast.Assign, ast.AnnAssign)):
+                tg = a.targets[0] if isinstance(a, ast.Assign) else a.target
+                if isinstance(tg, ast.Name) and tg.id == name and a.value is not None:
+                    for x in ast.walk(a.value):
+                        if isinstance(x, ast.Attribute) and x.attr == 'nsmap' \
+                                and stmt_text(x.value) == elem:
+                            return True
+                        if isinstance(x, ast.Name) and x.id != name and depth < 3 \
+                                and x.id in defs and fresh_from_elem(x.id, nd, depth + 1):
+                            return True
+            return False
+        return cfg.path_avoiding([cons], lambda q: q is inc, is_def) is None
+
+    for inc in incs:
+        for x in ast.walk(inc.ast.value):                   # type: ignore[union-attr]
+            if isinstance(x, ast.Attribute) and x.attr == 'nsmap':
+                if stmt_text(x.value) != elem:
+                    problems.append((inc, f'the gap after wrapping `{elem}` counts '
+                                          f'`{stmt_text(x)}`, the map of another element'))
+            elif isinstance(x, ast.Name) and x.id in defs and x.id != 'position':
+                if tree_level(x.id):
+                    continue
+                uses_map = any(isinstance(y, ast.Attribute) and y.attr == 'nsmap'
+                               or isinstance(y, ast.Name) and y.id in ('nsmap', 'namespaces')
+                               for d in defs[x.id] for y in ast.walk(d.value))   # type: ignore
+                if not uses_map and not x.id.endswith(('offset', 'nsmap')):
+                    continue
+                if not fresh_from_elem(x.id, inc):
+                    problems.append((inc, f'`{x.id}` used in the gap after wrapping `{elem}` is '
+                                          f'not recomputed from `{elem}.nsmap` on every path: '
+                                          f'on some path it describes the namespace map of a '
+                                          f'previously visited element'))
+    return problems
 
 
 def offset_env(f: FuncInfo) -> dict[str, Form]:
@@ -152,6 +229,7 @@ def builder_gaps(f: FuncInfo) -> list[tuple[ast.AST, Form]]:
         if any(not is_inc(x) for x in firsts) or not firsts:
             out.append((c.ast, {}))
             continue
+        PROVENANCE.extend(map_provenance(f, cfg, c, firsts))
         forms = [linform(x.ast.value, env) for x in firsts]     # type: ignore[union-attr]
         if all(fm == forms[0] for fm in forms):
             out.append((c.ast, forms[0]))
@@ -317,6 +395,19 @@ def r02_1(ctx, counts) -> RuleResult:
                          f'{f_.name}: `{nm} = {c}` for the empty namespace map disagrees with '
                          f'the general formula {g} (= {at_empty} for an empty map)'))
     del OFFSET_MISMATCH[:]
+    seen_p = set()
+    for nd, msg in PROVENANCE:
+        if (nd.lineno, msg) in seen_p:
+            continue
+        seen_p.add((nd.lineno, msg))
+        fn = [b_ for b_ in (tb.toplevel_function(x) for x in
+                            ('build_node_tree', 'build_lxml_node_tree', 'build_schema_node_tree'))
+              if b_ is not None and b_.node.lineno <= nd.lineno <= b_.node.end_lineno]
+        res.fail(finding('R02.1', fn[0] if fn else None, nd.ast, 'stale namespace map in gap',
+                         msg + ': the reserved gap can be smaller than what the lazy '
+                               'namespace/attribute nodes of this element consume',
+                         module=tb))
+    del PROVENANCE[:]
     # map agreement
     b = tb.toplevel_function('build_node_tree')
     assert b is not None
@@ -399,8 +490,8 @@ def r02_3(ctx, counts) -> RuleResult:
     reg = ctx.reg
     res = RuleResult(
         'R02.3', 'SETOP-SORT',
-        'In the select functions of "|"/union, intersect, except and in every function of the '
-        'operator/function modules that yields from a set of nodes: whatever is yielded from a '
+        'In the select functions of "|"/union, intersect, except every `yield from` — and in the '
+        'leading "//" select whatever is yielded from a set of nodes — '
         'set (`yield from <set expr>` where the expression is a set display/comprehension, '
         'set() call, set operation or a name bound to one) passes through sorted(…, '
         'key=node_position). The `self.concatenated` branch of the union operator is the one '
@@ -447,7 +538,8 @@ def r02_3(ctx, counts) -> RuleResult:
                         from_set = True
                     if isinstance(y, (ast.Set, ast.SetComp)):
                         from_set = True
-                if not from_set:
+                setop = bool(set(syms) & {'|', 'union', 'intersect', 'except'})
+                if not from_set and not setop:
                     continue
                 n += 1
                 concat = any(ft == '+self.concatenated' for ft in facts[nd.id])
@@ -456,10 +548,12 @@ def r02_3(ctx, counts) -> RuleResult:
                 if is_sorted or concat:
                     res.ok()
                 else:
-                    res.fail(finding('R02.3', f, x, 'unsorted set',
-                                     f'{sorted(set(syms))}: `{stmt_text(x)[:60]}` yields the '
-                                     f'elements of a set without sorted(key=node_position): the '
-                                     f'result is in hash order, not document order'))
+                    res.fail(finding('R02.3', f, x, 'unsorted set' if from_set else
+                                     'unsorted operand',
+                                     f'{sorted(set(syms))}: `{stmt_text(x)[:60]}` yields '
+                                     f'{"the elements of a set" if from_set else "an operand as it came"} '
+                                     f'without sorted(key=node_position): the result of a set '
+                                     f'operator must be duplicate-free and in document order'))
     counts['set_yields'] = n
     # `concatenated` is only set by the union led on the operand it adopts
     setters = []
